@@ -61,6 +61,8 @@ type replay struct {
 	Compact bool             `json:"compact,omitempty"`
 	Via    string            `json:"via,omitempty"`    // decode | import
 	Note   string            `json:"note,omitempty"`
+	Partner string           `json:"partner,omitempty"` // overlap: the second model (protojson)
+	Sched  *schedReplay      `json:"sched,omitempty"`   // schedule: messages, entry points, events
 }
 
 // ------------------------------------------------------------------ hostile strings
@@ -510,6 +512,31 @@ func hasMixinChain(m *sysl.Module, appKey string) bool {
 	return false
 }
 
+// the late arrival travels on: an application that mixes in (directly or through further mixins, in any sort order) an
+// application with such a chain receives the late types one pass later still
+func reachesMixinChain(m *sysl.Module, appKey string) bool {
+	seen := map[string]bool{}
+	var walk func(k string) bool
+	walk = func(k string) bool {
+		if seen[k] {
+			return false
+		}
+		seen[k] = true
+		if hasMixinChain(m, k) {
+			return true
+		}
+		if a := m.Apps[k]; a != nil {
+			for _, s := range a.Mixin2 {
+				if walk(syslutil.GetAppName(s.Name)) {
+					return true
+				}
+			}
+		}
+		return false
+	}
+	return walk(appKey)
+}
+
 // does the collector of this application carry an array-valued attribute?
 func collectorHasArrayAttr(a *sysl.Application) bool {
 	c := a.GetEndpoints()[collectorName]
@@ -563,7 +590,7 @@ func classifyReimport(orig, re *sysl.Module) map[string]string {
 			case d.kind == "len" && n >= 4 && d.path[n-1] == "elt" && d.path[n-2] == "a" && strings.HasPrefix(d.path[n-3], "[") && d.path[n-4] == "attrs" &&
 				len(d.path) > 2 && d.path[1] == "endpoints" && d.path[2] != "["+collectorName+"]" && collectorHasArrayAttr(a) && onlyRepeats(d.a.List(), d.b.List()):
 				keys["reimport:collector-array-attr"] = fmt.Sprintf("%s: %d elements became %d (collector attributes appended again)", p, d.a.List().Len(), d.b.List().Len())
-			case d.kind == "+" && n == 3 && (d.path[1] == "types" || d.path[1] == "views") && hasMixinChain(orig, k):
+			case d.kind == "+" && n == 3 && (d.path[1] == "types" || d.path[1] == "views") && reachesMixinChain(orig, k):
 				keys["reimport:mixin-chain"] = fmt.Sprintf("%s appears only after re-import (mixin of a mixin)", p)
 			default:
 				keys["reimport:differs"] = fmt.Sprintf("%s (%s)", p, d.kind)
@@ -1134,6 +1161,12 @@ type runner struct {
 	fieldsSeen map[string]bool
 	noSplit    bool
 	cliRot     int
+	partner    *sysl.Module // the module judged before: the second model of the overlapping encodes
+	overlapRot int
+	noOverlap  bool
+	encs       *common.Cases
+	mrng       *common.Rng
+	orng       *common.Rng // the overlap streams draw from their own generator: the other streams stay as they were
 }
 
 func (rn *runner) failf(key string, rp replay, format string, a ...interface{}) {
@@ -1146,6 +1179,9 @@ func (rn *runner) judgeModule(m *sysl.Module, base replay, label string, jsonToC
 	rn.noteFields(m.ProtoReflect())
 	if !rn.noSplit {
 		rn.splitInProcess(m, base, label)
+	}
+	if !rn.noOverlap {
+		rn.overlapWithPrevious(m, base, label)
 	}
 	for ei, e := range encodings {
 		rp := base
@@ -1403,7 +1439,7 @@ func main() {
 		os.Exit(3)
 	}
 	c.Res.Extra["regex_literal"] = re.lit
-	rn := &runner{c: c, re: re, syslBin: os.Getenv("VERIF_SYSL_BIN"), cliNames: map[string]bool{}, fieldsSeen: map[string]bool{}}
+	rn := &runner{orng: common.NewRng(c.Seed ^ 0x09e9), mrng: common.NewRng(c.Seed ^ 0x3e79e), c: c, re: re, syslBin: os.Getenv("VERIF_SYSL_BIN"), cliNames: map[string]bool{}, fieldsSeen: map[string]bool{}}
 
 	if c.Replay != "" {
 		var rp replay
@@ -1435,6 +1471,9 @@ Local Open Scope positive_scope.`
 	rn.disp = c.NewCases("C09disp", hdrClean, "c09_case", footer, 2000)
 	rn.post = c.NewCases("C09post", hdrPost, "c09_case", footer, 150)
 	rn.files = c.NewCases("C09file", hdrClean, "c09_case", footer, 250)
+	hdrEnc := `From Coq Require Import String List Bool NArith. Import ListNotations.
+Require Import Verif.Base.Harness Verif.Codec.EncState Verif.Codec.Run Verif.Codec.RunSrc.`
+	rn.encs = c.NewCases("C09enc", hdrEnc, "c09_case", footer, 50)
 	rn.fileBudget = 600
 	if c.Thorough() {
 		rn.fileBudget = 4000
@@ -1570,6 +1609,17 @@ Local Open Scope positive_scope.`
 		rn.cliStreams(scale)
 	}
 	lap("cli")
+	// 9. schedules of encoder calls and partial reads through writers that block, against the model
+	rn.scheduleCases(150 * scale)
+	lap("schedules")
+	// 10. a compiled model imported together with text that re-opens its applications
+	for _, p := range regressionMerge {
+		rn.mergeCase(p[0], p[1], encodings[0], "regression")
+	}
+	for i := 0; i < 30*scale; i++ {
+		rn.mergeCase(genSysl(rn.mrng, genOpts{hostileNames: i%3 == 0}), "", []encoding{encodings[0], encodings[1], encodings[3], encodings[2], encodings[4]}[i%5], "generated")
+	}
+	lap("merge")
 	rn.flushCli(hdrCli, footer)
 	var all, never []string
 	allFields((&sysl.Module{}).ProtoReflect().Descriptor(), map[string]bool{}, &all)
@@ -1585,6 +1635,7 @@ Local Open Scope positive_scope.`
 	rn.disp.Close()
 	rn.post.Close()
 	rn.files.Close()
+	rn.encs.Close()
 	c.Res.Extra["json_documents_compared_in_coq"] = rn.nJSONCoq
 }
 
@@ -1752,8 +1803,18 @@ var regressionSysl = []string{
 	"A:\n    -|> B\n    !type TA:\n        x <: int\nB [~abstract]:\n    -|> C\n    !type TB:\n        x <: int\nC [~abstract]:\n    !type TC:\n        x <: int\n",
 	// a collector statement whose own array attribute is shared with its target and grows again on re-import
 	"A:\n    E2:\n        ...\n    .. * <- *:\n        E2 [arr=[\"a\"]]\n        E2 [arr=[\"a\", \"b\"]]\n        E2 [arr=\"s\"]\n",
+	// the late arrival travels on: B mixes in A (sorted before it), and A -|> C -|> D is a chain whose links are sorted after A
+	"A [~abstract]:\n    -|> C\n    !type TA:\n        x <: int\nB:\n    -|> A\n    !type TB:\n        x <: int\nC [~abstract]:\n    -|> D\n    !type TC:\n        x <: int\nD [~abstract]:\n    !type TD:\n        x <: int\n",
 	// newline, non-ASCII, control bytes in names and values
 	"N%0A%C3%A9%01x [k=\"line\\nbreak \\u00e9 \\t\"]:\n    E:\n        ...\n",
+}
+
+// {first part (compiled and imported), text that re-opens it}
+var regressionMerge = [][2]string{
+	// the documented use: annotations, a type, an endpoint and a caller added to an application of the compiled model
+	{"A:\n    !type T:\n        x <: int\n    E:\n        ...\n", "A:\n    @extra = \"v\"\n    !type U:\n        y <: string\n    F:\n        A <- E\nB:\n    G:\n        A <- E\n"},
+	// an endpoint of the compiled model re-opened with more statements
+	{"A:\n    E [~p]:\n        first\n", "A:\n    E [~q]:\n        second\n"},
 }
 
 var regressionDocs = []string{
@@ -1762,7 +1823,17 @@ var regressionDocs = []string{
 }
 
 func (rn *runner) replay(rp replay, repo string) {
+	if rp.Via == "overlap" || rp.Via == "sequential" {
+		rn.replayOverlap(rp, repo)
+		return
+	}
 	switch rp.Kind {
+	case "merge":
+		rn.mergeCase(rp.Files["s1.sysl"], rp.Files["s2.sysl"], encoding{rp.Enc, rp.Compact, modeExt[rp.Enc]}, "replayed")
+	case "schedule":
+		if rp.Sched != nil {
+			rn.runSchedule(*rp.Sched)
+		}
 	case "sysl":
 		m, err, _ := compile(rp.Files, rp.Root)
 		if err != nil {
@@ -1825,4 +1896,53 @@ func (rn *runner) judgeModuleOnly(m *sysl.Module, rp replay) {
 	base := rp
 	base.Enc, base.Via = "", ""
 	rn.judgeModule(m, base, "replayed module", false, true)
+}
+
+// the module a replay descriptor stands for
+func moduleOfReplay(rp replay, repo string) *sysl.Module {
+	switch rp.Kind {
+	case "sysl":
+		m, err, _ := compile(rp.Files, rp.Root)
+		if err != nil {
+			return nil
+		}
+		return m
+	case "corpus":
+		m, err := compileCorpus(repo, rp.Path)
+		if err != nil {
+			return nil
+		}
+		return m
+	case "any", "msg", "abstract":
+		m := &sysl.Module{}
+		if err := protojson.Unmarshal([]byte(rp.Doc), m); err != nil {
+			return nil
+		}
+		if rp.Kind == "abstract" {
+			b, err := encode(m, encodings[0])
+			if err != nil {
+				return nil
+			}
+			m1, err, panicked := compile(map[string]string{"root.sysl": "import x.pb\n", "x.pb": string(b)}, "root.sysl")
+			if panicked || err != nil {
+				return nil
+			}
+			return m1
+		}
+		return m
+	}
+	return nil
+}
+
+func (rn *runner) replayOverlap(rp replay, repo string) {
+	m := moduleOfReplay(rp, repo)
+	p := &sysl.Module{}
+	if m == nil || protojson.Unmarshal([]byte(rp.Partner), p) != nil {
+		fmt.Println("cannot rebuild the two modules of the replay")
+		return
+	}
+	base := rp
+	base.Enc, base.Via, base.Partner, base.Note = "", "", "", ""
+	rn.overlapPair(m, p, base, "replayed module", true)
+	rn.c.Count("replay", true)
 }
